@@ -158,7 +158,9 @@ def run(tier, seed, which="C02"):
         r1.bisect = kv.run_tlc("BisectTrace", "BisectTrace.cfg", swd, trace=bp, timeout=900, heap="3g", name="bisect")
         # output identity per build family
         gev = []
-        for fam in (("rel", "noomp"), ("san",)):
+        # the property speaks about thread counts and schedules of one program: builds are compared among themselves
+        # (the build without OpenMP has a single configuration: it is run and traced, and compared only as a diagnostic)
+        for fam in (("rel",), ("san",)):
             mem = [(job, tp) for job, tp, rc, err in runs if job[2]["build"] in fam]
             if len(mem) < 2:
                 continue
@@ -168,11 +170,22 @@ def run(tier, seed, which="C02"):
                 gev += objs if objs else [dict(e="Obj", tag="out", null=1)]
         gp = os.path.join(swd, "group.ndjson")
         kv.write_ndjson(gp, gev)
+        # diagnostic: the build without OpenMP against the OpenMP build with one thread
+        one = [tp for job, tp, rc, err in runs if job[2]["build"] == "rel" and job[2]["threads"] == 1]
+        ser = [tp for job, tp, rc, err in runs if job[2]["build"] == "noomp"]
+        noomp_differs = False
+        if one and ser:
+            o1 = [e.get("seqs") for e in kv.read_trace(one[0]) if e.get("e") == "Obj" and e.get("tag") == "out"]
+            o2 = [e.get("seqs") for e in kv.read_trace(ser[0]) if e.get("e") == "Obj" and e.get("tag") == "out"]
+            noomp_differs = o1 != o2
         r2 = kv.run_tlc("RelateTrace", "RelateTrace.cfg", swd, trace=gp, timeout=1800, heap="6g", name="id")
+        r1.noomp_differs = noomp_differs
         return si, r1, r2, hb, gp
 
     for si, r1, r2, hb, gp in kv.pmap(validate, range(len(S)), workers=6):
         sc = S[si]
+        if r1.noomp_differs:
+            V.divergence("scenario %s: the build without OpenMP gives another alignment than the OpenMP build with one thread" % sc["id"])
         V.add_tlc(r1)
         V.add_tlc(r2)
         V.add_tlc(r1.bisect)
